@@ -113,8 +113,15 @@ def run(ctx):
     def effect_of(node):
         """effects (list) produced by executing CFG node `node` of consume_sample."""
         out = []
+
+        def post(n_):  # evaluation order: arguments before the call that receives them
+            for ch_ in ast.iter_child_nodes(n_):
+                if not isinstance(ch_, (ast.FunctionDef, ast.Lambda, ast.ClassDef)):
+                    yield from post(ch_)
+            yield n_
+
         for part in cfg.own_exprs(node.id):
-            for n in walk_no_nested(part):
+            for n in post(part):
                 if isinstance(n, ast.Call):
                     d = call_name(n) or ""
                     if d == "self.state.increment":
